@@ -60,7 +60,10 @@ def _case(draw):
                 prewrap=draw(st.sampled_from(["none", "none", "none", "wrapped", "wrapped_jac", "second_system"])),
                 # after the run: direct Jacobian requests interleaved with hooking / unhooking a Jacobian and changing the
                 # finite-difference order - none of which is a request, none of which resets a counter
-                hook_dance=draw(st.lists(st.sampled_from(["request", "request", "unhook", "hook", "set_order"]), min_size=0, max_size=5)))
+                hook_dance=draw(st.lists(st.sampled_from(["request", "request", "unhook", "hook", "set_order"]), min_size=0, max_size=5)),
+                # between the phases ANOTHER system is built on the same right-hand-side object, run and reset: the counters of a
+                # system are its own
+                intruder=draw(st.sampled_from([False, False, True])))
 
 
 def parts(tier):
@@ -219,6 +222,27 @@ def check(case):
                     viols.append(V("integrate_raised", "{} raised {!r} caused by {!r}".format(method, err, cause), sig + exc_sig(err), **attrs))
                     break
             viols += counters("after integrate ({})".format(phase))
+            if case.get("intruder") and phase == "first" and not viols:
+                mine = (a.nfev, a.njev)
+                before_ = dict(cnt)
+                armed, cnt["fault_armed"] = cnt.get("fault_armed"), None
+                try:
+                    other = de.OdeSystem(rhs_in, y0=np.asarray(case["y0"], dtype=np.float64).reshape(shape), t=(case["t0"], case["tf"]), dt=case["dt"], rtol=case["rtol"], atol=case["atol"])
+                    other.method = M.get(method)
+                    traj.run_integrate(other, np.float64(case["t0"] + 0.3 * (case["tf"] - case["t0"])), step_limit=200)
+                    other.reset()
+                    another = de.OdeSystem(rhs_in, y0=np.asarray(case["y0"], dtype=np.float64).reshape(shape), t=(case["t0"], case["tf"]), dt=case["dt"], rtol=case["rtol"], atol=case["atol"])
+                    del another
+                finally:
+                    cnt["fault_armed"] = armed if armed is None else armed + (cnt["rhs"] - before_["rhs"])
+                labels.append("another_system_on_the_same_rhs_object")
+                if (a.nfev, a.njev) != mine:
+                    viols.append(V("nfev", "{}: nfev / njev went from {} to {} while ANOTHER system built on the same right-hand-side object was constructed, run and reset".format(
+                        method, mine, (a.nfev, a.njev)), sig + ":shared", **attrs))
+                # (what the other systems did is not this system's: move the baselines of the harness' own counters)
+                base["rhs"] += cnt["rhs"] - before_["rhs"]
+                base["jac_requests"] += cnt["jac_requests"] - before_["jac_requests"]
+                base["ujac"] = base.get("ujac", 0) + cnt["ujac"] - before_["ujac"]
             # ---- callbacks
             if cb_viol:
                 viols.append(V("callback_state", cb_viol[0], sig, **attrs))
